@@ -149,6 +149,15 @@ def _iter_is_whole(it: ast.AST) -> str | None:
     return None
 
 
+CHAIN_SOURCES = ("transitions", "transition_group", "transition_by_topology", "spin_groups", "sequential_graphs", "topology.nodes", "_perform_combinatorics", "group_by_")
+
+
+def is_chain_iterable(it: ast.AST, rd: RD) -> bool:
+    """Does the iterable range over transitions / groups / symmetrisation graphs / nodes?"""
+    txt = unparse(it) + " ".join(unparse(d.value) for d in rd.closure(rd.uses(it)) if d.value is not None)
+    return any(sname in txt for sname in CHAIN_SOURCES)
+
+
 def check_fold(ctx: Check, tree: Tree) -> None:
     n_loops = 0
     for name in FOLD_CHAIN:
@@ -158,6 +167,8 @@ def check_fold(ctx: Check, tree: Tree) -> None:
             # ---- comprehensions / generator expressions
             if isinstance(node, (ast.ListComp, ast.GeneratorExp)):
                 gen = node.generators[0]
+                if not is_chain_iterable(gen.iter, rd):
+                    continue
                 n_loops += 1
                 key = f"{fn.qual}::comprehension over {unparse(gen.iter)[:40]}"
                 problems = []
@@ -180,6 +191,8 @@ def check_fold(ctx: Check, tree: Tree) -> None:
                             f"{name}: every element of `{unparse(gen.iter)[:40]}` contributes `{unparse(node.elt)[:50]}` and the collection is folded by {consumer}", problems or None)
             # ---- for loops
             if isinstance(node, ast.For):
+                if not is_chain_iterable(node.iter, rd):
+                    continue
                 n_loops += 1
                 key = f"{fn.qual}::for {unparse(node.target)} in {unparse(node.iter)[:40]}"
                 problems = []
